@@ -32,7 +32,7 @@ W = "esutil/recfile/records.cpp"
 
 # rules that keep their verdict however the code is laid out (decided by term equality, effect analysis or dominance over
 # resolved calls); every other rule of this check is a template rule (vcheck.core.Check.obt)
-SEMANTIC = ('R01.1', 'R01.4', 'R01.6', 'R01.3::Records::Write', 'R01.3::Recfile.write[binary]', 'R01.3::Recfile.open')
+SEMANTIC = ('R01.1', 'R01.4', 'R01.6', 'R01.3::Records::Write', 'R01.3::Records::set_file_type', 'R01.3::Recfile.write[binary]', 'R01.3::Recfile.open', 'R01.5::io.read::rec-dispatch', 'R01.5::io.write::rec-dispatch')
 
 
 # ---------------------------------------------------------------------------
@@ -80,6 +80,23 @@ def mkcat(parts):
 
 def pieces(t):
     return list(t[1]) if t[0] == "cat" else [t]
+
+
+def const_term(v):
+    """the term of a Python constant"""
+    if isinstance(v, tuple):
+        return ("tuple", tuple(const_term(x) for x in v))
+    if isinstance(v, list):
+        return ("list", tuple(const_term(x) for x in v))
+    return lit(v)
+
+
+def mksub(b, i):
+    """b[i]; an element of a tuple / list display is that element"""
+    if b[0] in ("tuple", "list") and is_lit(i, int) and not isinstance(i[1], bool) and -len(b[1]) <= i[1] < len(b[1]) \
+            and not any(x[0] == "star" for x in b[1]):
+        return b[1][i[1]]
+    return ("sub", b, i)
 
 
 def subterms(t):
@@ -156,8 +173,9 @@ _STR_PURE = ("upper", "lower", "strip", "lstrip", "rstrip", "title")
 class Ev:
     MAXDEPTH = 4
 
-    def __init__(self, repo, fi=None, mod=None, flags=None, binds=None, depth=0, stack=()):
+    def __init__(self, repo, fi=None, mod=None, flags=None, binds=None, depth=0, stack=(), outer=None):
         self.repo = repo
+        self.outer = outer      # (Ev of the calling method, node of the call) when this is a method reached through self.m(...)
         self.fi = fi
         self.mod = mod if mod is not None else (fi.module if fi is not None else None)
         self.flags = dict(flags or {})
@@ -166,6 +184,8 @@ class Ev:
         self.stack = stack
         self._busy = set()
         self._memo = {}
+        self._cenv = None       # {name: term} for the variables of a comprehension that is being unrolled over a constant table
+        self._dicts = {}
         if fi is not None:
             self.cfg = cfg_of(fi)
             self.view = self.cfg.specialise(flags=self.flags) if self.flags else self.cfg.view()
@@ -219,9 +239,18 @@ class Ev:
                         if isinstance(t, ast.Attribute):
                             out.setdefault(norm(t), []).append((n, a.value))
                         elif isinstance(t, (ast.Tuple, ast.List)):
-                            for e in t.elts:
+                            plain = not any(isinstance(e, ast.Starred) for e in t.elts)
+                            for i, e in enumerate(t.elts):
                                 if isinstance(e, ast.Attribute):
-                                    out.setdefault(norm(e), []).append((n, None))
+                                    # `a, self.x = v`: self.x is v[i] (the i-th element when v is written as a display)
+                                    if not plain:
+                                        v = None
+                                    elif isinstance(a.value, (ast.Tuple, ast.List)) and len(a.value.elts) == len(t.elts) \
+                                            and not any(isinstance(y, ast.Starred) for y in a.value.elts):
+                                        v = a.value.elts[i]
+                                    else:
+                                        v = ast.Subscript(value=a.value, slice=ast.Constant(value=i), ctx=ast.Load())
+                                    out.setdefault(norm(e), []).append((n, v))
                 elif isinstance(a, (ast.AugAssign, ast.AnnAssign)) and isinstance(a.target, ast.Attribute):
                     out.setdefault(norm(a.target), []).append((n, None))
             self._adefs = out
@@ -234,6 +263,8 @@ class Ev:
     def ev(self, e, at=None):
         if self.fi is not None and at is None:
             at = self.owner(e)
+        if self._cenv:
+            return self._ev(e, at)
         key = (id(e), at.id if at is not None else None)
         if key in self._memo:
             return self._memo[key]
@@ -306,16 +337,19 @@ class Ev:
             return (kind, tuple(("star", ev(x.value)) if isinstance(x, ast.Starred) else ev(x) for x in e.elts))
         if isinstance(e, ast.Dict):
             return ("dict", tuple((ev(k) if k is not None else ("**",), ev(v)) for k, v in zip(e.keys, e.values)))
+        if isinstance(e, ast.DictComp):
+            t = self._dictcomp(e, at)
+            return t if t is not None else ("expr", norm(e))
         if isinstance(e, ast.Subscript):
+            if isinstance(e.value, ast.Name) and isinstance(e.slice, ast.Constant) and isinstance(e.slice.value, str):
+                t = self.dict_entry(e.value.id, e.slice.value, at)
+                if t is not None:
+                    return t
             b = ev(e.value)
             if isinstance(e.slice, ast.Slice):
                 f = lambda x: NONE if x is None else ev(x)
                 return ("slice", b, f(e.slice.lower), f(e.slice.upper), f(e.slice.step))
-            i = ev(e.slice)
-            if b[0] in ("tuple", "list") and is_lit(i, int) and not isinstance(i[1], bool) and -len(b[1]) <= i[1] < len(b[1]) \
-                    and not any(x[0] == "star" for x in b[1]):
-                return b[1][i[1]]
-            return ("sub", b, i)
+            return mksub(b, ev(e.slice))
         if isinstance(e, ast.Starred):
             return ("star", ev(e.value))
         if isinstance(e, ast.NamedExpr):
@@ -334,6 +368,8 @@ class Ev:
         return ("glob", name)
 
     def _name(self, name, at):
+        if self._cenv and name in self._cenv:
+            return self._cenv[name]
         if self.fi is None or at is None or at.id not in self.view.reach:
             if self.fi is None:
                 return self._global(name)
@@ -388,7 +424,7 @@ class Ev:
                         if isinstance(x, ast.Name) and x.id == name and not any(isinstance(y, ast.Starred) for y in t.elts):
                             if isinstance(a.value, (ast.Tuple, ast.List)) and len(a.value.elts) == len(t.elts):
                                 return self.ev(a.value.elts[i], n)
-                            return ("sub", self.ev(a.value, n), lit(i))
+                            return mksub(self.ev(a.value, n), lit(i))
         if n.kind == "stmt" and isinstance(a, ast.AugAssign) and isinstance(a.target, ast.Name):
             return ("op", _BINOP.get(type(a.op), "?"), self._name(name, n), self.ev(a.value, n))
         if n.kind == "stmt" and isinstance(a, ast.AnnAssign) and a.value is not None:
@@ -408,15 +444,162 @@ class Ev:
         if d is not None and self.fi is not None and at is not None:
             head = d.split(".")[0]
             if head == self.selfname and d.count(".") == 1 and at.id in self.view.reach:
-                ds = self.attr_defs().get(d, [])
-                if len(ds) == 1 and ds[0][1] is not None and ds[0][0].id != at.id and self.view.dominates(ds[0][0], at):
-                    return self.ev(ds[0][1], ds[0][0])
-                return ("attr", SELF, e.attr)
+                return self.self_attr(e.attr, at)
         b = ev(e.value)
         if b[0] == "glob":
             full = b[1] + "." + e.attr
             return ("glob", self.repo._follow(full) if full.startswith("esutil") else full)
         return ("attr", b, e.attr)
+
+    # -- comprehensions over constant tables, local dicts that are filled in and emptied key by key --------------------
+    def _dictcomp(self, e, at):
+        """{k: v for x, y in TABLE} with TABLE a constant (module-level tuple of names and defaults ...): the dict display it builds"""
+        items = []
+        outer_env = dict(self._cenv or {})
+
+        def rec(i, env, cenv):
+            if i == len(e.generators):
+                saved = self._cenv
+                self._cenv = dict(outer_env, **cenv)
+                try:
+                    items.append((self._ev(e.key, at), self._ev(e.value, at)))
+                finally:
+                    self._cenv = saved
+                return
+            g = e.generators[i]
+            if g.is_async:
+                raise NotConst()
+            it = const_eval(g.iter, env, self.mod)
+            if isinstance(it, (str, bytes, dict, set, frozenset)) or not hasattr(it, "__iter__"):
+                raise NotConst()
+            for v in it:
+                names = [g.target] if isinstance(g.target, ast.Name) else (list(g.target.elts) if isinstance(g.target, (ast.Tuple, ast.List)) else None)
+                if names is None or not all(isinstance(x, ast.Name) for x in names):
+                    raise NotConst()
+                vals = [v] if isinstance(g.target, ast.Name) else list(v) if isinstance(v, (tuple, list)) else None
+                if vals is None or len(vals) != len(names):
+                    raise NotConst()
+                env2 = dict(env, **{x.id: w for x, w in zip(names, vals)})
+                if all(_const_truth(c, env2, self.mod, 0) for c in g.ifs):
+                    rec(i + 1, env2, dict(cenv, **{x.id: const_term(w) for x, w in zip(names, vals)}))
+        try:
+            if self.fi is not None and any(isinstance(x, ast.Name) and self.fi is not None and at is not None and at.id in self.view.reach
+                                           and self.rd()[at.id].get(x.id) for g in e.generators for x in ast.walk(g.iter)):
+                return None         # the table is a local, not a module constant
+            rec(0, {}, {})
+        except (NotConst, TypeError):
+            return None
+        keys = [k for k, _ in items]
+        if not all(is_lit(k) for k in keys) or len(set(keys)) != len(keys):
+            return None
+        return ("dict", tuple(items))
+
+    def _dict_events(self, name):
+        """how the local `name`, defined once as a dict display, is used: [(node, 'set', key, value expr) | (node, 'pop', key, None)]
+        or None when it is used in a way this does not follow (handed to a function, aliased, updated wholesale ...)"""
+        if name in self._dicts:
+            return self._dicts[name]
+        self._dicts[name] = None
+        parents = {}
+        for x in walk_no_nested(self.fi.node):
+            for y in ast.iter_child_nodes(x):
+                parents[id(y)] = x
+        defs, events = [], []
+        ok = True
+        for x in walk_no_nested(self.fi.node):
+            if not (isinstance(x, ast.Name) and x.id == name):
+                continue
+            par = parents.get(id(x))
+            gp = parents.get(id(par))
+            if isinstance(par, ast.Assign) and x in par.targets:
+                defs.append(par)
+            elif isinstance(par, ast.Subscript) and par.value is x:
+                k = par.slice.value if isinstance(par.slice, ast.Constant) and isinstance(par.slice.value, str) else None
+                if isinstance(par.ctx, ast.Load):
+                    pass
+                elif k is None:
+                    ok = False
+                elif isinstance(par.ctx, ast.Store) and isinstance(gp, ast.Assign) and gp.targets == [par]:
+                    events.append((self.owner(gp.value), "set", k, gp.value))
+                elif isinstance(par.ctx, ast.Del):
+                    events.append((self.owner(par), "pop", k, None))
+                else:
+                    ok = False
+            elif isinstance(par, ast.Attribute) and par.value is x and isinstance(gp, ast.Call) and gp.func is par:
+                if par.attr in ("get", "keys", "items", "values", "copy"):
+                    pass
+                elif par.attr == "pop" and gp.args and isinstance(gp.args[0], ast.Constant) and isinstance(gp.args[0].value, str):
+                    events.append((self.owner(gp), "pop", gp.args[0].value, None))
+                else:
+                    ok = False
+            elif isinstance(par, ast.keyword) and par.arg is None:
+                pass
+            elif isinstance(par, ast.Compare) and x in par.comparators and all(isinstance(o, (ast.In, ast.NotIn)) for o in par.ops):
+                pass
+            elif isinstance(par, ast.Call) and x in par.args and isinstance(par.func, ast.Name) and par.func.id in ("dict", "len", "sorted", "list", "bool"):
+                pass
+            else:
+                ok = False
+        if not ok or len(defs) != 1 or any(n is None for n, _, _, _ in events):
+            return None
+        dn = self.owner(defs[0].value)
+        if dn is None:
+            return None
+        saved, self._cenv = self._cenv, None
+        base = self._ev(defs[0].value, dn)
+        self._cenv = saved
+        if base[0] == "call" and base[1] == "dict" and not base[2] and all(k != "**" for k, _ in base[3]):
+            base = ("dict", tuple((lit(k), v) for k, v in base[3]))
+        if base[0] != "dict" or not all(is_lit(k, str) for k, _ in base[1]):
+            return None
+        self._dicts[name] = (dn, base, events)
+        return self._dicts[name]
+
+    def dict_values(self, name, key, at):
+        """what the local dict `name` can hold under the constant key when control is at node `at` (the operation at `at` itself not
+        counted): ([terms], may the key be absent) or None when the dict is not followed"""
+        if self.fi is None or at is None or at.id not in self.view.reach or name == self.selfname:
+            return None
+        defs = self.rd()[at.id].get(name)
+        if not defs or len(defs) != 1:
+            return None
+        model = self._dict_events(name)
+        if model is None or next(iter(defs)) != model[0].id:
+            return None
+        dn, base, events = model
+        mine = [(n, kind, v) for n, kind, k, v in events if k == key and n.id != at.id]
+        basev = dict((k[1], v) for k, v in base[1])
+        cands = [(dn, "set" if key in basev else "pop", None)] + mine
+        vals, absent = [], False
+        for n, kind, v in cands:
+            others = [m for m, _, _ in cands if m.id != n.id]
+            if not self.view.reaches(n, at, avoiding=others):
+                continue
+            if kind == "pop":
+                absent = True
+            else:
+                t = basev[key] if v is None else self.ev(v, n)
+                if t not in vals:
+                    vals.append(t)
+        return vals, absent
+
+    def dict_entry(self, name, key, at):
+        r = self.dict_values(name, key, at)
+        if r is not None and len(r[0]) == 1 and not r[1]:
+            return r[0][0]
+        return None
+
+    def self_attr(self, attr, at):
+        """value of self.<attr> at node `at`: its single dominating assignment in this method; in a helper reached through
+        self.helper(...) that does not assign it, what it is in the calling method at the call"""
+        ds = self.attr_defs().get("%s.%s" % (self.selfname, attr), [])
+        if len(ds) == 1 and ds[0][1] is not None and ds[0][0].id != at.id and self.view.dominates(ds[0][0], at):
+            return self.ev(ds[0][1], ds[0][0])
+        if not ds and self.outer is not None:
+            oev, oat = self.outer
+            if oev.fi is not None and oev.selfname is not None and oat is not None and oat.id in oev.view.reach:
+                return oev.self_attr(attr, oat)
+        return ("attr", SELF, attr)
 
     # -- calls ------------------------------------------------------------
     def _args(self, c, ev):
@@ -437,13 +620,13 @@ class Ev:
             b[k] = v
         return b
 
-    def inline(self, callee, bound):
+    def inline(self, callee, bound, outer=None):
         """value returned by a side-effect free helper (straight assignments to locals, decided or merging branches, one
         reachable return) with its parameters bound; None when the callee is anything more than that"""
         if self.depth >= self.MAXDEPTH or callee.qualname in self.stack or (self.fi is not None and callee is self.fi):
             return None
         sub = Ev(self.repo, callee, flags=self.flags, binds=bound, depth=self.depth + 1,
-                 stack=self.stack + ((self.fi.qualname,) if self.fi is not None else ()))
+                 stack=self.stack + ((self.fi.qualname,) if self.fi is not None else ()), outer=outer)
         rets = []
         for n in sub.view.nodes():
             a = n.ast
@@ -452,6 +635,8 @@ class Ev:
             if n.kind == "return":
                 rets.append(n)
                 continue
+            if n.kind == "with" and all(it.optional_vars is None or isinstance(it.optional_vars, ast.Name) for it in a.items):
+                continue            # `with open(...) as f:` around the assignments: f is ("ctx", <the expression>)
             if n.kind == "stmt":
                 if isinstance(a, ast.Pass) or (isinstance(a, ast.Expr) and isinstance(a.value, ast.Constant)):
                     continue
@@ -481,7 +666,7 @@ class Ev:
             b = self.bind(callee, args, kws, skip_self=True)
             if b is None:
                 return ("mcall", callee.qualname, (("*", ("tuple", args)), ("**", ("dict", kws))))
-            r = self.inline(callee, b)
+            r = self.inline(callee, b, outer=(self, at))
             return r if r is not None else ("mcall", callee.qualname, tuple(sorted(b.items())))
         callee = self.resolve_module_function(c)
         if callee is not None and not (isinstance(c.func, ast.Name) and self.fi is not None and at is not None
@@ -493,6 +678,11 @@ class Ev:
             return ("call", callee.qualname, args, kws)
         f = c.func
         if isinstance(f, ast.Attribute):
+            if isinstance(f.value, ast.Name) and f.attr in ("pop", "get") and 1 <= len(c.args) <= 2 and not c.keywords \
+                    and isinstance(c.args[0], ast.Constant) and isinstance(c.args[0].value, str):
+                t = self.dict_entry(f.value.id, c.args[0].value, at)
+                if t is not None:
+                    return t
             ft = ev(f)
             if ft[0] == "glob":
                 return ("call", ft[1], args, kws)
@@ -653,13 +843,34 @@ def find_calls(ev, pred, follow=True, _seen=None):
             args, kws = ev._args(c, lambda x: ev.ev(x, n))
             b = ev.bind(callee, args, kws, skip_self=skip)
             seen.add(callee.qualname)
-            sub = Ev(ev.repo, callee, flags=ev.flags, binds=b if b is not None else {}, depth=ev.depth + 1, stack=ev.stack + (ev.fi.qualname,))
+            sub = Ev(ev.repo, callee, flags=ev.flags, binds=b if b is not None else {}, depth=ev.depth + 1, stack=ev.stack + (ev.fi.qualname,),
+                     outer=(ev, n) if skip else None)
             out.extend(find_calls(sub, pred, follow, seen))
     return out
 
 
 def named(*names):
     return lambda c: call_name(c) in names
+
+
+def kw_terms(ev, n, c, name):
+    """the possible values of keyword `name` of the call: written at the call, or held under that key by a local dict handed over
+    with ** (a dict display plus `d[key] = value` stores, followed through the control flow)"""
+    v = kwarg(c, name)
+    if v is not None:
+        return [ev.ev(v, n)]
+    out = []
+    for k in c.keywords:
+        if k.arg is None:
+            if isinstance(k.value, ast.Name):
+                r = ev.dict_values(k.value.id, name, n)
+                if r is not None:
+                    out.extend(r[0])
+                    continue
+            t = ev.ev(k.value, n)
+            if t[0] == "dict":
+                out.extend(val for key, val in t[1] if key == lit(name))
+    return out
 
 
 def kwterm(ev, n, c, name):
@@ -866,6 +1077,99 @@ def c_controls(ccfg, node, inits):
 def holds(rels, lhs, op, rhs):
     """is `lhs op rhs` one of the relations (either orientation)"""
     return any((l, o, r) == (lhs, op, rhs) or (r, _CSWAP.get(o), l) == (lhs, op, rhs) for l, o, r in rels if r is not None)
+
+
+def c_emptiness(cond, truth=True):
+    """Is the C++ condition, taken with the given truth value, a test whether a std::string is empty?  Recognised spellings:
+    X == "" / "" == X / X != "", X.empty(), X.size() / X.length() compared with 0 or 1 (== 0, != 0, > 0, < 1, >= 1, 0 < ...),
+    strlen(X.c_str()) likewise, a bare length as a truth value, any of these under `!`.
+    Returns (text of X, True when the outcome means "X is empty" / False when it means "X is not empty") or None."""
+    n = cfront.strip(cond)
+    while n.get("kind") == "UnaryOperator" and n.get("opcode") == "!":
+        n = cfront.strip(n["inner"][0])
+        truth = not truth
+
+    def length_of(x):
+        x = cfront.strip(x)
+        if x.get("kind") == "CXXMemberCallExpr" and cfront.callee_name(x) in ("size", "length") and not cfront.call_args(x):
+            return cfront.render(cfront.strip(x["inner"][0])["inner"][0])
+        if x.get("kind") == "CallExpr" and cfront.callee_name(x) == "strlen" and len(cfront.call_args(x)) == 1:
+            a = cfront.strip(cfront.call_args(x)[0])
+            if a.get("kind") == "CXXMemberCallExpr" and cfront.callee_name(a) in ("c_str", "data") and not cfront.call_args(a):
+                return cfront.render(cfront.strip(a["inner"][0])["inner"][0])
+        return None
+    k = n.get("kind")
+    if k == "CXXMemberCallExpr" and cfront.callee_name(n) == "empty" and not cfront.call_args(n):
+        return cfront.render(cfront.strip(n["inner"][0])["inner"][0]), truth
+    if length_of(n) is not None:                       # a length used as a truth value: non-zero, not empty
+        return length_of(n), not truth
+    op, args = None, None
+    if k == "CXXOperatorCallExpr" and cfront.callee_name(n) in ("operator==", "operator!="):
+        op, args = cfront.callee_name(n)[len("operator"):], cfront.call_args(n)
+    elif k == "BinaryOperator" and n.get("opcode") in _CNEG:
+        op, args = n["opcode"], n["inner"]
+    if op is None or len(args) != 2:
+        return None
+    l, r = args
+    if c_string_literal(l) is not None or cfront.strip(l).get("kind") == "IntegerLiteral":
+        l, r, op = r, l, _CSWAP[op]
+    if c_string_literal(r) == "" and op in ("==", "!=") and c_string_literal(l) is None:
+        return cfront.render(l), truth == (op == "==")
+    L = length_of(l)
+    rv = cfront.strip(r)
+    if L is not None and rv.get("kind") == "IntegerLiteral" and str(rv.get("value")) in ("0", "1"):
+        # over the non-negative lengths: which comparisons with 0 / 1 say "length is 0"
+        empty_when = {("==", "0"): True, ("<=", "0"): True, ("<", "1"): True, ("!=", "0"): False, (">", "0"): False, (">=", "1"): False}
+        e = empty_when.get((op, str(rv.get("value"))))
+        if e is not None:
+            return L, truth == e
+    return None
+
+
+def file_type_by_delimiter(fn):
+    """Every assignment to mFileType in fn, with the emptiness tests on mDelim it is control dependent on (the arms of a
+    conditional expression count as branches).  (verdict, description): True when BINARY_FILE is stored exactly under "mDelim is
+    empty" and something else exactly under "not empty"; False when a store contradicts that; None when a store is not governed by a
+    recognised emptiness test of the delimiter."""
+    ccfg = cfront.CCFG(fn)
+    view = ccfg.view()
+    cases = []          # (value text, [emptiness facts], number of unrecognised controlling tests)
+
+    def split(v, facts):
+        v = cfront.strip(v)
+        if v.get("kind") == "ConditionalOperator":
+            c, a, b = v["inner"][:3]
+            return split(a, facts + [(c, True)]) + split(b, facts + [(c, False)])
+        return [(cfront.render(v), facts)]
+    for n in ccfg.nodes:
+        if n.kind != "stmt" or not isinstance(n.c, dict):
+            continue
+        for x in cfront.walk(n.c):
+            if x.get("kind") == "BinaryOperator" and x.get("opcode") == "=" and cfront.render(x["inner"][0]) == "mFileType":
+                ctl = [(b.c, lab == "T") for b, lab in view.controlling_branches(n) if b.c is not None and lab in ("T", "F")]
+                for val, facts in split(x["inner"][1], ctl):
+                    em = [c_emptiness(c, t) for c, t in facts]
+                    cases.append((val, [e for e in em if e is not None and e[0] == "mDelim"], len([e for e in em if e is None or e[0] != "mDelim"])))
+    seen = [(v, ["mDelim %s" % ("empty" if e[1] else "not empty") for e in es] + ["?"] * u) for v, es, u in cases]
+    if not cases:
+        return None, seen
+    verdicts = []
+    for val, es, unk in cases:
+        truths = {e[1] for e in es}
+        if len(truths) != 1:
+            verdicts.append(None)           # not governed by the delimiter test (or by contradictory ones)
+            continue
+        empty = truths.pop()
+        good = (val == "BINARY_FILE") == empty
+        # a wrong store is wrong whatever else guards it; a right one is only known to be complete when nothing else guards it
+        verdicts.append(False if not good else (True if not unk else None))
+    if False in verdicts:
+        return False, seen
+    if None in verdicts:
+        return None, seen
+    both = any(v == "BINARY_FILE" for v, _, _ in cases) and any(v != "BINARY_FILE" for v, _, _ in cases)
+    return (True if both else None), seen
+
 
 
 _BYTE_READS = ("fgetc", "getc", "getc_unlocked", "fread", "fgets")
@@ -1166,15 +1470,22 @@ def framing(chk, repo, cfun):
         chk.ob(R, "parser::drops-size-line-and-trailer-lines", None, rh.where(), "the line selection evaluated by read_header is not recognised (%s)" % (show(hterm) if hterm is not None else None))
     else:
         X, psep, lo, drop = sel
-        chk.ob(R, "parser::drops-size-line-and-trailer-lines", lo == 1 and drop == ntrail and call_rd(X) and X[2] == lit(0), rh.where(),
+        # a verdict only when the text that is split is known to be the one the C++ reader returned
+        chk.ob(R, "parser::drops-size-line-and-trailer-lines", (lo == 1 and drop == ntrail) if (call_rd(X) and X[2] == lit(0)) else (False if call_rd(X) else None), rh.where(),
                "the dict text is lines[1 : len(lines)-%s] of the text returned by the C++ reader: the SIZE line and the %s trailing pieces produced by splitting the trailer are dropped (found lines[%s : len-%s])" % (ntrail, ntrail, lo, drop))
         chk.ob(R, "parser::splits-on-writer-separator", psep == sep, rh.where(), "the header text is split on the writer's separator (%r vs %r)" % (psep, sep))
     offs = rev.attr_defs().get("self._data_start", [])
     offt = [rev.ev(v, nn) if v is not None else None for nn, v in offs]
-    chk.ob(R, "parser::data-offset-kept", (len(offt) == 1 and call_rd(offt[0]) and offt[0][2] == lit(1)) if offt and None not in offt else None, rh.where(),
+    def offset_kept(t):
+        if call_rd(t):
+            return t[2] == lit(1)
+        if is_lit(t) or any(call_rd(x) for x in subterms(t)):
+            return False        # a constant, or something computed from what the reader returned
+        return None
+    chk.ob(R, "parser::data-offset-kept", (offset_kept(offt[0]) if len(offt) == 1 else (False if any(offset_kept(t) is False for t in offt) else None)) if offt and None not in offt else None, rh.where(),
            "the offset returned by the C++ reader becomes the data start (%s)" % [show(t) if t else None for t in offt])
     so = repo.func("esutil.sfile.SFile.open")
-    offs = [ee.ev(kwarg(cc, "offset"), nn) for ee, nn, cc in find_calls(Ev(repo, so), named("Recfile")) if kwarg(cc, "offset") is not None]
+    offs = [t for ee, nn, cc in find_calls(Ev(repo, so), named("Recfile")) for t in kw_terms(ee, nn, cc, "offset")]
     chk.ob(R, "SFile.open::reader-starts-at-data-offset", all(o == ("attr", SELF, "_data_start") for o in offs) if offs else None, so.where(), "the record reader is opened at the data start (%s)" % [show(t) for t in offs])
     inits = c_inits(rd)
     rets = [x for x in cfront.walk(cfront.body_of(rd)) if x.get("kind") == "ReturnStmt"]
@@ -1364,19 +1675,39 @@ def size_line(chk, repo, cfun):
     chk.analysed_unit(ex.qualname)
     ev = Ev(repo, ex)
     line = ("param", ex.params[1]) if len(ex.params) > 1 else None
+    # the two spellings of "name = value": line.split("=") -> [name, value] and line.partition("=") -> (name, "=", value); with
+    # exactly one "=" in the line they give the same name and the same value
     parts = ("meth", line, "split", (lit("="),), ())
+    parts3 = ("meth", line, "partition", (lit("="),), ())
+    rparts3 = ("meth", line, "rpartition", (lit("="),), ())
+    name_terms = (("sub", parts, lit(0)), ("sub", parts3, lit(0)), ("sub", rparts3, lit(0)))
+    value_terms = (("sub", parts, lit(1)), ("sub", parts3, lit(2)), ("sub", rparts3, lit(2)))
+
+    def one_equals(L):
+        """do the facts L imply that the line holds exactly one '='"""
+        if (("cmp", "Eq", ("call", "len", (parts,), ()), lit(2)), True) in L or (("cmp", "Eq", ("meth", line, "count", (lit("="),), ()), lit(1)), True) in L:
+            return True
+        for p3, rest in ((parts3, 2), (rparts3, 0)):
+            sep = ("sub", p3, lit(1))
+            found = (("cmp", "Eq", sep, lit("")), False) in L or (sep, True) in L or (("cmp", "Eq", sep, lit("=")), True) in L
+            clean = (("cmp", "In", lit("="), ("sub", p3, lit(rest))), False) in L
+            if found and clean:
+                return True
+        return False
     rlits = [path_literals(ev, n) for n in ev.view.nodes() if n.kind == "raise"]
-    two = (("cmp", "Eq", ("call", "len", (parts,), ()), lit(2)), False)
-    chk.ob(R, "size-parser::one-equals-sign", any(two in L for L in rlits), ex.where(), "the SIZE line must split into exactly name and value: a raise is control dependent on len(line.split('=')) != 2")
+    retlits = [path_literals(ev, n) for n in _returns(ev)]
+    chk.ob(R, "size-parser::one-equals-sign", bool(retlits) and bool(rlits) and all(one_equals(L) for L in retlits), ex.where(),
+           "the SIZE line must split into exactly name and value: every return is control dependent on len(line.split('=')) == 2 "
+           "(or, with partition, on a separator found and no further '=' in the value), the other outcome raises")
     names = []
     for L in rlits:
         for x, vals in excluded_values(L).items():
             core, seen = _peel(x, ("strip", "upper"))
-            if core == ("sub", parts, lit(0)) and "strip" in seen and "upper" in seen:
+            if core in name_terms and "strip" in seen and "upper" in seen:
                 names.append(vals)
     chk.ob(R, "size-parser::name-accepted", {"SIZE", "NROWS"} in names, ex.where(), "the name SIZE (or legacy NROWS), stripped and upper-cased, is required: every other name raises (%s)" % names)
     vals = _return_terms(ev)
-    chk.ob(R, "size-parser::value", bool(vals) and all(v == ("call", "eval", (("sub", parts, lit(1)),), ()) for v in vals), ex.where(),
+    chk.ob(R, "size-parser::value", bool(vals) and all(v[0] == "call" and v[1] == "eval" and len(v[2]) == 1 and v[2][0] in value_terms and not v[3] for v in vals), ex.where(),
            "the row count is the evaluated right-hand side (blank padding tolerated) (%s)" % [show(v) for v in vals])
     gs = repo.func("esutil.sfile.SFile._get_size_string")
     gt = _return_terms(Ev(repo, gs))
@@ -1403,7 +1734,7 @@ def size_line(chk, repo, cfun):
             ok = fl is not None and fl[0][0] == "sub" and fl[0][2] == lit(0) and fl[0][1][0] == "meth" and fl[0][1][2] == "read_sfile_header"
     chk.ob(R, "parser::size-from-first-line", ok and len(stores) == 1, rh.where(), "_SIZE in the header read back is the count of the SIZE line: hdr['_SIZE'] = _extract_size_from_string(<first line of the text read>) (%s)" % found)
     so = repo.func("esutil.sfile.SFile.open")
-    nr = [e.ev(kwarg(c, "nrows"), n) for e, n, c in find_calls(Ev(repo, so), named("Recfile")) if kwarg(c, "nrows") is not None]
+    nr = [t for e, n, c in find_calls(Ev(repo, so), named("Recfile")) for t in kw_terms(e, n, c, "nrows")]
     gn = repo.func("esutil.sfile.SFile.get_nrows")
     stored = ("sub", ("attr", SELF, "_hdr"), lit("_SIZE"))
     rets = _return_terms(Ev(repo, gn))
@@ -1437,8 +1768,24 @@ def payload(chk, repo, cfun):
     w = cfun["Records::Write"]
     chk.analysed_unit("Records::Write")
     winits = c_inits(w)
-    asg = {cfront.render(x["inner"][0]): c_render(x["inner"][1], winits) for x in cfront.walk(cfront.body_of(w)) if x.get("kind") == "BinaryOperator" and x.get("opcode") == "="}
-    chk.ob(R, "Records::Write::data-pointer-and-count", None if "mData" not in asg or "mNrows" not in asg else (asg["mData"] == "PyArray_DATA(obj)" and "obj" in asg["mNrows"]), cwhere(w), "mData is the array's buffer and mNrows its size (%s, %s)" % (asg.get("mData"), asg.get("mNrows")))
+    # the array is the (one) parameter of Write, whatever it is called: mData must be its buffer, mNrows computed from it
+    wps = [p for p in cfront.params_of(w) if p]
+    wasg = {}
+    for x in cfront.walk(cfront.body_of(w)):
+        if x.get("kind") == "BinaryOperator" and x.get("opcode") == "=":
+            wasg.setdefault(cfront.render(x["inner"][0]), []).append(c_subst(x["inner"][1], winits))
+    shown = {k: [cfront.render(v) for v in vs] for k, vs in wasg.items() if k in ("mData", "mNrows")}
+    if len(wps) != 1 or len(wasg.get("mData", [])) != 1 or len(wasg.get("mNrows", [])) != 1:
+        okp = None
+    else:
+        arr = wps[0]
+        derived = c_derived_names(w, [arr])         # locals computed from the parameter (a cast pointer, or a converted copy: not told apart here)
+        tri = lambda e, exact: True if exact else (None if _c_refs(e) & derived else False)
+        dtxt = cfront.render(wasg["mData"][0])
+        okd_ = tri(wasg["mData"][0], dtxt in ("PyArray_DATA(%s)" % arr, "PyArray_BYTES(%s)" % arr))     # False: the buffer written is not taken from the array handed in
+        okn_ = tri(wasg["mNrows"][0], arr in _c_refs(wasg["mNrows"][0]))
+        okp = False if False in (okd_, okn_) else (None if None in (okd_, okn_) else True)
+    chk.ob(R, "Records::Write::data-pointer-and-count", okp, cwhere(w), "mData is the buffer of the array handed to Write and mNrows its size (%s, %s)" % (shown.get("mData"), shown.get("mNrows")))
     cfi = cfun["Records::copy_field_info"]
     rs = [cfront.render(x["inner"][1]) for x in cfront.walk(cfront.body_of(cfi)) if x.get("kind") == "BinaryOperator" and x.get("opcode") == "=" and cfront.render(x["inner"][0]) == "mRowSize"]
     chk.ob(R, "Records::copy_field_info::row-size-is-itemsize", len(rs) == 1 and "descr" in rs[0] and ("ELSIZE" in rs[0] or "elsize" in rs[0]), cwhere(cfi), "the row size is the dtype's item size (%s)" % rs)
@@ -1468,8 +1815,9 @@ def payload(chk, repo, cfun):
         okd = holds(disp["WriteAllAsBinary"][0], "mFileType", "==", "BINARY_FILE") and holds(disp["WriteRows"][0], "mFileType", "!=", "BINARY_FILE")
     chk.ob(R, "Records::Write::binary-dispatch", okd, cwhere(w), "binary files take the single-fwrite path (%s)" % disp)
     sft = cfun["Records::set_file_type"]
-    sf = [(cfront.render(b.c), lab, cfront.render(n.c)) for n in cfront.CCFG(sft).nodes if n.kind == "stmt" and isinstance(n.c, dict) and "mFileType =" in cfront.render(n.c) for b, lab in cfront.CCFG(sft).view().controlling_branches(n)[:1]]
-    chk.ob(R, "Records::set_file_type::binary-iff-no-delimiter", len(sf) == 2 and all('mDelim == ""' in c for c, _, _ in sf), cwhere(sft), "a file is binary exactly when the delimiter is empty")
+    chk.analysed_unit("Records::set_file_type")
+    okf, seen = file_type_by_delimiter(sft)
+    chk.ob(R, "Records::set_file_type::binary-iff-no-delimiter", okf, cwhere(sft), "a file is binary exactly when the delimiter is empty (%s)" % seen)
     # readers
     filedtype = ("attr", SELF, "dtype")
     for q in ("esutil.recfile.Util.Recfile._read_binary_slice", "esutil.recfile.Util.Recfile._read_columns"):
@@ -1514,7 +1862,7 @@ def payload(chk, repo, cfun):
     chk.ob(R, "Records::read_from_binary_column::field-sized-read", fr == ["fread(buff, mSizes[colnum], 1, mFptr)"], cwhere(rb), "a column is read as its full byte size into the output (%s)" % fr)
     # SFile dtype from the header
     so = repo.func("esutil.sfile.SFile.open")
-    kw = [e.ev(kwarg(c, "dtype"), n) for e, n, c in find_calls(Ev(repo, so), named("Recfile")) if kwarg(c, "dtype") is not None and kwarg(c, "offset") is not None]
+    kw = [t for e, n, c in find_calls(Ev(repo, so), named("Recfile")) if kw_terms(e, n, c, "offset") for t in kw_terms(e, n, c, "dtype")]
     ok = False
     if len(kw) == 1 and kw[0][0] == "call" and kw[0][1] == "numpy.dtype" and len(kw[0][2]) == 1:
         d = kw[0][2][0]
@@ -1660,6 +2008,87 @@ def _split_ifexp(ev, value, at):
     return [(value, [])]
 
 
+def filtered_copies(ev, mh, H, header):
+    """Stores `H[k] = <value>` made while iterating over the user's header (for k, v in header.items() / for k in header): the dict is
+    built entry by entry instead of copied whole and pruned.  One record per store:
+      value  -- "deep" (copy.deepcopy of the entry's value), "alias" (the value itself or a shallow copy), None (something else)
+      lits   -- canonical literals of the tests on the header the store depends on
+      select -- [(case method or None, constant collection, text)]: the store is skipped for keys k with f(k) in the collection
+      unknown -- texts of controlling tests that are neither"""
+    anc = _ancestors(mh.node)
+    mod = mh.module
+    local = {}
+    for nm, v in rules.single_defs(mh.node).items():
+        try:
+            local[nm] = const_eval(v, {}, mod)
+        except NotConst:
+            pass
+    out = []
+    for n in ev.view.nodes():
+        a = n.ast
+        if n.kind != "stmt" or not isinstance(a, ast.Assign) or len(a.targets) != 1:
+            continue
+        t = a.targets[0]
+        if not (isinstance(t, ast.Subscript) and isinstance(t.value, ast.Name) and t.value.id == H and isinstance(t.slice, ast.Name)):
+            continue
+        loops = [c for c, f in anc.get(id(a), []) if isinstance(c, ast.For) and f == "body"]
+        if not loops:
+            continue
+        loop = loops[-1]
+        ln = ev.owner(loop.iter)
+        it = ev.ev(loop.iter, ln) if ln is not None else None
+        k = t.slice.id
+        if it == ("meth", header, "items", (), ()) and isinstance(loop.target, ast.Tuple) and len(loop.target.elts) == 2 \
+                and all(isinstance(x, ast.Name) for x in loop.target.elts) and loop.target.elts[0].id == k and loop.target.elts[1].id != k:
+            val = ("elem", it, loop.target.elts[1].id)
+        elif it in (header, ("meth", header, "keys", (), ()), ("call", "list", (header,), ()), ("call", "list", (("meth", header, "keys", (), ()),), ())) \
+                and isinstance(loop.target, ast.Name) and loop.target.id == k:
+            val = ("sub", header, ("elem", it))
+        else:
+            continue
+        vt = ev.ev(a.value, n)
+        if vt == ("call", "copy.deepcopy", (val,), ()):
+            kind = "deep"
+        elif vt in (val, ("call", "copy.copy", (val,), ())):
+            kind = "alias"
+        else:
+            kind = None
+        lits, select, unknown = [], [], []
+        for b, lab in ev.view.controlling_branches(n):
+            if b.kind != "branch":
+                if b.kind == "loop" and isinstance(b.ast, ast.While):
+                    unknown.append(norm(b.ast.test))
+                continue
+            test, truth = b.ast.test, lab == "T"
+            while isinstance(test, ast.UnaryOp) and isinstance(test.op, ast.Not):
+                test, truth = test.operand, not truth
+            sel = None
+            if isinstance(test, ast.Compare) and len(test.ops) == 1 and isinstance(test.ops[0], (ast.In, ast.NotIn)):
+                l, meth = test.left, None
+                if isinstance(l, ast.Call) and isinstance(l.func, ast.Attribute) and l.func.attr in ("lower", "upper") and not l.args and not l.keywords:
+                    meth, l = l.func.attr, l.func.value
+                if isinstance(l, ast.Name) and l.id == k:
+                    skipped_when_in = truth == isinstance(test.ops[0], ast.NotIn)        # the store runs when k is NOT in the collection
+                    try:
+                        coll = const_eval(test.comparators[0], local, mod)
+                        sel = (meth, coll, norm(test)) if skipped_when_in else None
+                    except NotConst:
+                        sel = None
+                    if sel is None:
+                        unknown.append(norm(b.ast.test))
+                    else:
+                        select.append(sel)
+                    continue
+            cl = canon(ev, b.ast.test, lab == "T", b)
+            if all(mentions_term(atom, header) and not any(x and x[0] == "elem" for x in subterms(atom)) for atom, _ in cl):
+                lits.extend(cl)
+            else:
+                unknown.append(norm(b.ast.test))
+        out.append(dict(node=n, value=kind, lits=lits, select=select, unknown=unknown, text=norm(a)))
+    return out
+
+
+
 def header_content(chk, repo, fr):
     R = "R01.4"
     mh = repo.func("esutil.sfile.SFile._make_header")
@@ -1690,17 +2119,37 @@ def header_content(chk, repo, fr):
     # an unconditional `head = {}` that the copy, made later when a header was given, replaces is the same thing as the else arm
     default = lambda L, n: not given(L) and not absent(L) and bool(deeps) and not any(ev.view.reaches(d, n) for d in deeps)
     good = [(t in empty and (absent(L) or default(L, n))) or (t == deep and given(L)) for t, L, n in origins]
+    # the other way to the same dict: start empty and copy the user's entries one by one (each value deep-copied; keys are strings)
+    fills = filtered_copies(ev, mh, H, header)
+    plain = lambda L: not given(L) and not absent(L)
     if not origins:
         ok = None
     elif all(good) and deeps and any(t in empty for t, L, n in origins):
         ok = True
     elif any(t in shallow for t, L, n in origins) or any(t == deep and absent(L) for t, L, n in origins) or any(t in empty and given(L) for t, L, n in origins):
         ok = False          # the caller's dict itself / a shallow copy is stored, or the arms are exchanged
+    elif fills and all(t in empty and (plain(L) or absent(L)) for t, L, n in origins):
+        if any(f["value"] == "alias" for f in fills):
+            ok = False      # the user's own value objects are stored
+        elif all(f["value"] == "deep" and given(f["lits"]) and not f["unknown"] for f in fills):
+            ok = True
+        else:
+            ok = None
     else:
         ok = None
-    chk.ob(R, "_make_header::user-header-deep-copied", ok, mh.where(), "the stored header starts as a deep copy of the user's dict (or empty when none was given): %s"
-           % [(show(t), [(show(a), b) for a, b in L]) for t, L, n in origins])
+    chk.ob(R, "_make_header::user-header-deep-copied", ok, mh.where(), "the stored header starts as a deep copy of the user's dict (or empty when none was given): %s%s"
+           % ([(show(t), [(show(a), b) for a, b in L]) for t, L, n in origins], "" if not fills else "; filled entry by entry: %s" % [(f["text"], f["value"]) for f in fills]))
     keys, patterns, problems, unknown = removed_keys(mh, H)
+    for f in fills:
+        # entries that are never copied are entries removed
+        for meth, coll, text in f["select"]:
+            if isinstance(coll, str):
+                problems.append("`%s` is a substring test against the text %r: every user key that occurs anywhere inside it is left out" % (text, coll))
+            elif all(isinstance(k, str) for k in coll):
+                patterns.append((meth, set(coll)))
+            else:
+                unknown.append(text)
+        unknown.extend(f["unknown"])
     allk = set(keys)
     for meth, coll in patterns:
         allk |= coll
@@ -1747,7 +2196,13 @@ def header_content(chk, repo, fr):
     wh = repo.func("esutil.sfile.SFile._write_header")
     want = ("mcall", mh.qualname, (("data", ("param", "data")), ("header", ("param", "header"))))
     got = fr.get("dict_arg")
-    chk.ob(R, "_write_header::dict-pretty-printed", None if got is None else got == want, fr.get("where", wh.where()),
+    if got is None or got == want:
+        okp = None if got is None else True
+    elif (got[0] == "mcall" and got[1] == mh.qualname) or got[0] in ("param", "dict", "lit") or (got[0] == "call" and any(x[0] == "param" for x in subterms(got) if x)):
+        okp = False         # _make_header called with other arguments, or the user's dict / a literal / a copy of an argument printed instead
+    else:
+        okp = None          # an attribute or a value this evaluation does not resolve
+    chk.ob(R, "_write_header::dict-pretty-printed", okp, fr.get("where", wh.where()),
            "the header text is pprint.pformat of the dict built by _make_header(data, header=header) (%s)" % (show(got) if got is not None else "header text not evaluated"))
     rh = repo.func("esutil.sfile.SFile.read_header")
     ht = fr.get("read_header_value")
@@ -1776,6 +2231,117 @@ def header_content(chk, repo, fr):
         okc = None
     chk.ob(R, "SFile.read::header-returned-by-copy", okc, rd.where(),
            "read(header=True) returns a deep copy of the stored header (%s)" % [show(t) for t in tups])
+
+
+IO_RESOLVE = "esutil.io._get_fname_ftype_from_inputs"
+
+
+def _io_part(t, i):
+    """is t element i of what _get_fname_ftype_from_inputs(<the file argument>, **keywords) returns: (file name, file object, type, fs)"""
+    return len(t) == 3 and t[0] == "sub" and t[2] == lit(i) and isinstance(t[1], tuple) and len(t[1]) == 4 and t[1][0] == "call" and t[1][1] == IO_RESOLVE
+
+
+def _under_rec(lits, is_type):
+    """the path literals under the assumption that the file type is 'rec': (feasible, implied) -- feasible False when a literal
+    contradicts it, None when a test on the type is not understood; implied True when a literal holds only for 'rec'"""
+    feasible, implied = True, False
+    for atom, truth in lits:
+        if not any(is_type(x) for x in subterms(atom)):
+            continue
+        val = None
+        if atom[0] == "cmp" and is_type(atom[2]):
+            if atom[1] == "Eq" and is_lit(atom[3], str):
+                val = atom[3][1] == "rec"
+                implied = implied or (val and truth)
+            elif atom[1] == "In" and atom[3][0] in ("tuple", "list", "set") and all(is_lit(x, str) for x in atom[3][1]):
+                val = "rec" in [x[1] for x in atom[3][1]]
+                implied = implied or (truth and [x[1] for x in atom[3][1]] == ["rec"])
+            elif atom[1] == "In" and _table_keys(atom[3]) is not None:
+                val = "rec" in _table_keys(atom[3])
+        if val is None:
+            feasible = None if feasible else feasible
+        elif val != truth:
+            feasible = False
+    return feasible, implied
+
+
+def _table_keys(t):
+    """constant string keys of a dict display (or of its .keys()) that is not modified after it is built"""
+    if t[0] == "meth" and t[2] == "keys" and not t[3]:
+        t = t[1]
+    if t[0] == "dict" and all(is_lit(k, str) for k, _ in t[1]):
+        return [k[1] for k, _ in t[1]]
+    return None
+
+
+def rec_dispatch(ev, target, with_data):
+    """Which function does the front end call for file type 'rec', and with what?  The type is element 2, the file object element 1
+    of the tuple returned by _get_fname_ftype_from_inputs.  Recognised: an arm of an if/elif chain taken when type == 'rec', and a
+    table {type name: function} indexed with the type (subscript or .get).  (verdict, what was found)."""
+    is_type = lambda t: _io_part(t, 2)
+    found, verdicts, elsewhere = [], [], []
+    arm = False
+    for n in ev.view.nodes():
+        lits = None
+        if n.kind in ("stmt", "return"):
+            lits = path_literals(ev, n)
+            arm = arm or _under_rec(lits, is_type) == (True, True)
+        for c in rules.stmts_calls(n):
+            ft = ev.ev(c.func, n)
+            how = None
+            if ft == ("glob", target):
+                how = "arm"
+            elif ft[0] == "sub" and is_type(ft[2]) and _table_keys(ft[1]) is not None:
+                how = "table"
+                entry = dict((k[1], v) for k, v in ft[1][1]).get("rec")
+            elif ft[0] == "meth" and ft[2] == "get" and len(ft[3]) >= 1 and is_type(ft[3][0]) and _table_keys(ft[1]) is not None:
+                how = "table"
+                entry = dict((k[1], v) for k, v in ft[1][1]).get("rec")
+            if how is None:
+                continue
+            lits = path_literals(ev, n) if lits is None else lits
+            feasible, implied = _under_rec(lits, is_type)
+            if how == "table" and entry is None:
+                found.append("the table indexed with the type has no entry 'rec': %s" % norm(c))
+                verdicts.append(False)
+                continue
+            if feasible is False:
+                if how == "arm":
+                    elsewhere.append(norm(c))
+                continue                # not reached for 'rec'
+            if how == "arm" and not implied:
+                found.append("%s not under a test for 'rec'" % norm(c))
+                verdicts.append(None)
+                continue
+            if how == "table" and entry != ("glob", target):
+                found.append("table entry 'rec' is %s" % (show(entry) if entry is not None else "missing"))
+                verdicts.append(False if (entry is None or entry[0] == "glob") else None)
+                continue
+            args, kws = ev._args(c, lambda x: ev.ev(x, n))
+            wanted = [lambda t: _io_part(t, 1)] + ([lambda t: t == ("param", ev.fi.params[1])] if with_data else [])
+            kwparam = [("param", p[2:]) for p in ev.fi.params if p.startswith("**")]
+            if not (len(args) == len(wanted) and all(w(a) for w, a in zip(wanted, args))):
+                roles = False           # the file object (and the data) are not in their places
+            elif len(kws) == 1 and kws[0][0] == "**" and kws[0][1] in kwparam:
+                roles = True
+            elif not any(mentions_term(v, kp) for _, v in kws for kp in kwparam):
+                roles = False           # the caller's keywords (header=, rows=, columns= ...) are not forwarded
+            else:
+                roles = None
+            found.append(norm(c))
+            verdicts.append(roles if feasible else None)
+    if not verdicts:
+        # an arm for 'rec' that does not call the record reader/writer, or that function called only for other types, is a
+        # contradiction; nothing at all is an unknown layout
+        if elsewhere:
+            found = ["only reached for other types: %s" % ", ".join(elsewhere)]
+        return (False if (arm or elsewhere) else None), found
+    if False in verdicts:
+        return False, found
+    if None in verdicts or len(verdicts) != 1:
+        return None, found
+    return True, found
+
 
 
 def front_ends(chk, repo):
@@ -1833,11 +2399,10 @@ def front_ends(chk, repo):
     ior = repo.func("esutil.io.read")
     iow = repo.func("esutil.io.write")
     for f, callee in ((ior, "read_rec"), (iow, "write_rec")):
-        cfg = cfg_of(f)
-        hits = [(norm(c), rules.controlling_tests(cfg.view(), n)[:1]) for n in cfg.nodes for c in rules.stmts_calls(n) if call_name(c) == callee]
+        chk.analysed_unit(f.qualname)
+        okd, found = rec_dispatch(Ev(repo, f), "esutil.io." + callee, with_data=(callee == "write_rec"))
         want = "%s(fobj, **keywords)" % callee if callee == "read_rec" else "%s(fobj, data, **keywords)" % callee
-        ok = len(hits) == 1 and hits[0][0] == want and hits[0][1] == [("type == 'rec'", "T")]
-        chk.ob(R, "io.%s::rec-dispatch" % f.name, ok, f.where(), "type 'rec' dispatches to %s (%s)" % (want, hits))
+        chk.ob(R, "io.%s::rec-dispatch" % f.name, okd, f.where(), "type 'rec' dispatches to %s (%s)" % (want, found))
     rr = repo.func("esutil.io.read_rec")
     chk.analysed_unit(rr.qualname)
     rev = Ev(repo, rr)
@@ -1863,7 +2428,20 @@ def row_count(chk, repo):
     fi = repo.func("esutil.recfile.Util.Recfile._count_nrows")
     chk.analysed_unit(fi.qualname)
     ev = Ev(repo, fi, flags=BINARY)
-    rets = [(n, ev.ev(n.ast.value, n)) for n in _returns(ev) if n.ast.value is not None]
+    # the value returned on the binary path; when it is what a private method returns (one that positions the file, so it is not
+    # folded into a term), the rule looks at that method, with its parameters bound to the arguments of the call
+    for _ in range(3):
+        rets = [(n, ev.ev(n.ast.value, n)) for n in _returns(ev) if n.ast.value is not None]
+        sub = None
+        if len(rets) == 1 and rets[0][1][0] == "mcall" and isinstance(rets[0][0].ast.value, ast.Call):
+            callee = ev.resolve_self_method(rets[0][0].ast.value)
+            binds = dict(rets[0][1][2])
+            if callee is not None and callee.qualname == rets[0][1][1] and "*" not in binds and "**" not in binds:
+                sub = Ev(repo, callee, flags=BINARY, binds=binds, depth=ev.depth + 1, stack=ev.stack + (ev.fi.qualname,), outer=(ev, rets[0][0]))
+        if sub is None:
+            break
+        chk.analysed_unit(sub.fi.qualname)
+        ev, fi = sub, sub.fi
     cands = [(n, t) for n, t in rets if t[0] == "op" and t[1] == "//"]
     found = len(rets) == 1 and len(cands) == 1
     chk.ob(R, "_count_nrows::binary-arm-found", True if found else None, fi.where(), "on the binary path the row count returned is an integer division (%s)" % [show(t) for n, t in rets])
